@@ -154,5 +154,15 @@ CLAIMED["C10"] = dict(
     note="Trusted: Lean kernel, harness/door, tools/extract.py (regex translation of the two match tables), http crate authority parsing "
          "(parsed view is a model input), HTTP/3 not driven.",
 )
+CLAIMED["C19"] = dict(
+    text="Unbounded Lean theorems about the shutdown model, for every operation history: a participant registered before a submission "
+         "gets Ok from its next (or pending) wait whatever else is interleaved (repeated submits, other participants, completion polls); "
+         "nobody is notified without a submission; completion answers done iff no guard is outstanding and stays enabled; a registration "
+         "after completion started gets no guard. Tied to shutdown.rs by executing every operation sequence up to length 6 (7) over 3 "
+         "participants plus random longer histories on the real Shutdown with hand-polled futures, and by live HTTP/1.1 / HTTP/2 sessions "
+         "that must wind down on submit before completion() returns.",
+    note="Trusted: Lean kernel, harness/door, tokio broadcast/mpsc semantics (the model's reading of them is what the exhaustive "
+         "sequences compare). Process exit and lock-across-await effects in main.rs are outside the model.",
+)
 NOT_CLAIMED = {p: "not yet built in this framework (planned, see DESIGN.md section 5)" for p in
-               ["C07", "C16", "C17", "C18", "C19", "C20"]}
+               ["C07", "C16", "C17", "C18", "C20"]}
